@@ -5,6 +5,10 @@ import ZygoVerif.Model.Pratt
 import ZygoVerif.Model.LegacyPratt
 import ZygoVerif.Model.PrattGrammar
 import ZygoVerif.Spec.Stratified
+import ZygoVerif.Spec.Spacing
+import ZygoVerif.Model.InfixFront
+import ZygoVerif.Proofs.InfixFrontEnd
+import ZygoVerif.Proofs.PrattStratBlock
 namespace ZygoVerif.Pratt
 open ZygoVerif.Stratified
 
@@ -41,10 +45,14 @@ theorem ctor_rbp_as_modelled : Generated.InfixTable.ctorRbp =
      ("Assignment", "bp - 1", "set,=,:="), ("PostfixAssign", "", "")] := by
   decide +kernel
 
+/-- the arm fix C06-02 adds (nil, written `()`): optional, so that the theorem holds before and after the fix -/
+def sentinelArm : List String × List (String × Bool) := (["SexpSentinel"], [("", true)])
+
 /-- LeftBindingPower has the arms and guards that `lbp` models (constants are read from the
-generated file, not compared here). -/
+generated file, not compared here); the arm for nil of fix C06-02 may be present or not — the
+model reads it from the generated file (`Table.lbpNull`). -/
 theorem lbp_arms_as_modelled :
-    Generated.InfixTable.lbpArms.map (fun a => (a.types, a.returns.map (fun r => (r.1, r.2.isSome)))) =
+    (Generated.InfixTable.lbpArms.map (fun a => (a.types, a.returns.map (fun r => (r.1, r.2.isSome))))).filter (· != sentinelArm) =
     [(["SexpInt", "SexpFloat"], [("", true)]), (["SexpBool"], [("", true)]), (["SexpStr"], [("", true)]),
      (["SexpChar", "SexpUint64"], [("", true)]),
      (["SexpSymbol"], [("x.name == \"if\"", true), ("found", false), ("x.isDot", true), ("", true)]),
@@ -67,6 +75,20 @@ theorem char_statement_fixed :
             (parseBlock documented [.sym "a", .other false "'c'"]) = true
     ∧ sameRes (expandBlock Table.generated [.sym "a", .other false "'c'"])
               (some [.sym "a", .other false "'c'"]) = true := by
+  decide +kernel
+
+/-! ### the defect repaired by fix C06-02 (proposed) -/
+
+/-- Without an arm for nil in LeftBindingPower, `{a ()}` (nil as a juxtaposed statement) is an error … -/
+theorem C06_counterexample_nil_statement :
+    expandBlock Table.legacy02 [.sym "a", .null] = none := by
+  decide +kernel
+
+/-- … and once the arm is there (`Table.generated.lbpNull = some 0`) the block has the two statements the
+grammar gives it. (Stated so that it holds on the tree before and after the fix.) -/
+theorem nil_statement_fixed :
+    (Table.generated.lbpNull != some 0 ||
+     sameRes (expandBlock Table.generated [.sym "a", .null]) (parseBlock documented [.sym "a", .null])) = true := by
   decide +kernel
 
 /-! ### statements of a block are expanded left to right
@@ -127,10 +149,13 @@ def InFragment (T : Table) (ts : List Sx) : Prop :=
   inScope (grammarOf T) ts = true ∧
   ∀ t ∈ ts, (lbp T t).isSome ∧ (nudOf T t = .atom ∨ ∃ n r, nudOf T t = .pre n r)
 
-/-- THE FULL STATEMENT (visible, not proved for unbounded length in this file): for every
-well-formed table and every token list of the fragment — malformed ones included — the Pratt
-loop of pratt.go and the stratified recursive-descent parser over the levels the table
-induces return the same tree and the same unconsumed rest. -/
+/-- THE FULL STATEMENT IN ITS ORIGINAL FORM (visible, NOT proved): for EVERY well-formed table and
+every token list of the fragment, with the concrete fuel of the two models. What is proved instead,
+for token lists of unbounded length: `pratt_iff_stratified` / `expand_iff_statements` below — the
+same statement for the table of the current tree and the documented levels, fuel-free ("returns …
+with enough fuel"). Missing for this form: (1) that `fuelFor` always suffices (a bound on the
+recursion depth of both parsers), (2) the generalisation from the regenerated table to every
+well-formed table (`grammarOf T` in place of `documented`). -/
 def PrattEqStratified : Prop :=
   ∀ (T : Table) (ts : List Sx), WellFormedTable T → InFragment T ts →
     expression T 0 ts = Stratified.parse (grammarOf T) ts
@@ -159,5 +184,208 @@ statements under the Pratt model and under the stratified specification. Kernel-
 theorem pratt_eq_stratified_partial :
     ((listsOfLen alphabet 1 ++ listsOfLen alphabet 2 ++ listsOfLen alphabetCore 3).all agree) = true := by
   decide +kernel
+
+/-! ### the Pratt loop equals the stratified grammar — token lists of unbounded length
+
+Fuel is an artefact of the models (pratt.go has none), so the statements are about what the two
+parsers return "with enough fuel" (`PE`, `SS`, `Stmts`; more fuel never changes a result:
+`Pratt.mono`, `Stratified.mono`). They are about the table REGENERATED from the current tree and
+the documented levels; the link between the two (`corr_generated`: every operator of a documented
+level has that level's binding power and the `MunchLeft` its role says, every other token binds
+with 0, prefix operators recurse with their level's power) is re-established by `decide` on every
+run, with the binding powers read off the table. -/
+
+/-- The fragment, as a test: no token (at any depth of selectors) is `if`, `for`, `break`, `continue`
+or unknown to `LeftBindingPower`, and the specification speaks about the list (`inScope`: an
+operator without right operand is not directly followed by a tighter operator). -/
+def inFragmentB (ts : List Sx) : Bool := fragList (okTok Table.generated) ts && inScope documented ts
+
+theorem frag_of_B {ts : List Sx} (h : inFragmentB ts = true) : Frag Table.generated documented ts := by
+  simp only [inFragmentB, inScope, Bool.and_eq_true] at h
+  exact ⟨h.1, h.2.1, h.2.2⟩
+
+theorem noFor_of_B {ts : List Sx} (h : inFragmentB ts = true) : noFor ts := by
+  intro t ht
+  have hok : okTok Table.generated t = true :=
+    fragTok_top _ t (fragList_mem _ ts (frag_of_B h).1 t ht)
+  cases hn : t.isNamed "for" with
+  | false => rfl
+  | true =>
+    exfalso
+    have hs : t.symName? = some "for" := by simpa [Sx.isNamed] using hn
+    have hnud : nudOf Table.generated t = .forop := by
+      unfold nudOf; rw [hs]; decide +kernel
+    simp [okTok, okNudB, hnud] at hok
+
+/-- **pratt_iff_stratified** (one expression): for EVERY token list of the fragment — any length,
+selectors nested to any depth, malformed lists included — and every result (tree, unconsumed rest):
+`Pratt.Expression(0)` of pratt.go (model, regenerated table) returns it iff the textbook stratified
+recursive-descent parser over the documented levels returns it. Hence one of them fails or never
+returns iff the other does. Proof: `Proofs/PrattStrat.lean` (`Expression(rbp)` = the parse at the
+levels binding tighter than `rbp`; its loop = the chains of those levels, cut at each level's
+binding power; the stop property of `Expression` lets a chain go on where the loop goes on). -/
+theorem pratt_iff_stratified (ts : List Sx) (h : inFragmentB ts = true) (E : Sx) (r : Sx × List Sx) :
+    (∃ f, expr Table.generated f 0 E ts = some (r.1, E, r.2)) ↔ (∃ f, strat documented E f documented ts = some r) :=
+  pratt_iff_strat corr_generated ts (frag_of_B h) E r
+
+/-- **The statements of a block**: `InfixExpandArray` (model) returns the statement list `out` iff
+`out` is the list of stratified statements of the tokens (`Stmts`: one expression at the loosest
+level, one `;` skipped, an expression that is just `;` is no statement). -/
+theorem expand_iff_statements (ts : List Sx) (hne : ts ≠ []) (h : inFragmentB ts = true) (out : List Sx) :
+    (∃ f, expandArray Table.generated f (staleOf ts) ts [] = some out) ↔ Stmts documented (staleOf ts) ts out := by
+  rw [expandArray_iff (staleOf ts) ts hne (frag_of_B h) (noFor_of_B h) [] out]
+  constructor
+  · rintro ⟨xs, hst, rfl⟩; simpa using hst
+  · intro hst; exact ⟨out, hst, by simp⟩
+
+/-- With the fuel the driver uses: whenever `expandBlock` (Pratt model) and `parseBlock` (stratified
+specification) both return, they return the same statements. (That their fuel always suffices is
+not proved; `pratt_eq_stratified_partial` and the correspondence check it.) -/
+theorem expandBlock_eq_parseBlock (ts : List Sx) (hne : ts ≠ []) (h : inFragmentB ts = true) (o1 o2 : List Sx)
+    (h1 : expandBlock Table.generated ts = some o1) (h2 : parseBlock documented ts = some o2) : o1 = o2 := by
+  have a := (expand_iff_statements ts hne h o1).1 ⟨_, h1⟩
+  have b : Stmts documented (staleOf ts) ts o2 := statements_sound _ _ _ _ _ h2
+  exact Stmts_det a b
+
+/-- non-vacuity: a long mixed list is in the fragment, and both sides return -/
+example : inFragmentB [.sym "a", .sym "=", .sym "b", .sym "or", .sym "not", .sym "c", .sym "<", .sym "d", .sym "+", .sym "e",
+    .sym "*", .sym "-", .sym "f", .sym "**", .dot "g.h", .arr [.sym "i", .sym "+", .lit "1"], .dot ".k", .semi, .sym "x", .sym "++"] = true := by
+  decide +kernel
+
+/-! ### lex_spacing: a legal spacing of a token sequence lexes to that token sequence
+
+`Spec/Spacing.lean` says, on characters alone, which tokens may be written without a blank
+between them (rules W, D, S, B). The theorems below are about `Model/Lexer.lean`, the model of
+lexer.go that the `lex` channel (C13/C12) and the `expand ltree` ops tie to the code. -/
+
+section LexSpacing
+open ZygoVerif.Lexer ZygoVerif.Spacing ZygoVerif.InfixRead
+
+/-- The token queue after feeding `text` to a fresh lexer, when nothing is left pending. -/
+def lexText (text : List Char) : Option (List Lexer.Token) :=
+  match feed (.ok LexCore.init) text with
+  | .ok s => if s.buffer.isEmpty && s.state == .normal then some s.tokens else none
+  | .err _ _ => none
+
+/-- **lex_spacing** (general form): for EVERY token sequence and EVERY legal spacing of it, from
+every lexer state in LexerNormal with an empty buffer whose last rune was `l0`, the text followed
+by a blank is read as exactly the tokens of the sequence — one lexer token of the expected type
+(`expTok`) per written token — appended to the queue, with nothing left pending. -/
+theorem lex_spacing (items : List Spacing.Item) (l0 c : Char) (hc : Spacing.isBlank c = true)
+    (h : Spacing.legal l0 items = true) (T : List Lexer.Token) :
+    Lex ⟨.normal, [], T, l0⟩ (Spacing.renderItems items ++ [c]) ⟨.normal, [], T ++ items.map (fun it => expTok it.2), c⟩ :=
+  Lexer.lex_spacing items l0 c hc h T
+
+/-- … in particular from the fresh lexer (the last-rune ring starts with NULs). -/
+theorem lex_spacing_fresh (items : List Spacing.Item) (h : Spacing.legal '\x00' items = true) :
+    lexText (Spacing.renderItems items ++ ['\n']) = some (items.map (fun it => expTok it.2)) := by
+  obtain ⟨s', hf, hs'⟩ := Lexer.lex_spacing items '\x00' '\n' (by decide) h [] LexCore.init
+    ⟨rfl, rfl, rfl, ringOK_init, lastRune_init⟩
+  simp [lexText, hf, hs'.buffer, hs'.state, hs'.tokens]
+
+private def nm (s : String) : Tok := .name false [s.toList]
+private def nat (s : String) : Tok := .num false s.toList none none
+private def neg (s : String) : Tok := .num true s.toList none none
+private def op (s : String) : Tok := .op s.toList
+
+/-- non-vacuity: `a+b*-1 <=c.d[ 0 ]`, `x:=-2.5e-3`, `a - 1`, `a-1` are legal spacings -/
+example : Spacing.legal '\x00' [([], nm "a"), ([], op "+"), ([], nm "b"), ([], op "*"), ([], neg "1"), ([' '], op "<="),
+    ([], .name false ["c".toList, "d".toList]), ([], .punct '['), ([' '], nat "0"), (['\n'], .punct ']')] = true := by decide +kernel
+example : Spacing.legal '{' [([], nm "x"), ([], op ":="), ([], .num true "2".toList (some "5".toList) (some ('-', "3".toList)))] = true := by
+  decide +kernel
+example : Spacing.legal '{' [([], nm "a"), ([' '], op "-"), ([' '], nat "1")] = true := by decide +kernel
+example : Spacing.legal '{' [([], nm "a"), ([], op "-"), ([], nat "1")] = true := by decide +kernel
+
+/-- **The sign look-back (known finding of C06) is exactly the excluded adjacency B**: `a -1`
+(blank before the minus, none after it, a digit next) is not a legal spacing of the three tokens
+`a`, `-`, `1` — and it must not be: the lexer model reads the text as the TWO tokens `a`, `-1`. -/
+theorem lex_spacing_counterexample_sign_lookback :
+    Spacing.legal '{' [([], nm "a"), ([' '], op "-"), ([], nat "1")] = false ∧
+    lexText "a -1\n".toList = some [⟨.symbol, ['a']⟩, ⟨.decimal, ['-', '1']⟩] ∧
+    lexText "a - 1\n".toList = some [⟨.symbol, ['a']⟩, ⟨.symbol, ['-']⟩, ⟨.decimal, ['1']⟩] ∧
+    lexText "a-1\n".toList = some [⟨.symbol, ['a']⟩, ⟨.symbol, ['-']⟩, ⟨.decimal, ['1']⟩] := by
+  decide +kernel
+
+/-- Each of the other three rules is needed as well: written tight, `a` `b` is one name (W), `+` `+`
+is the operator `++` and `<` `-1` starts with the operator `<-` (D), `a` `-1` is a subtraction (S). -/
+theorem lex_spacing_counterexample_other_rules :
+    (Spacing.legal '{' [([], nm "a"), ([], nm "b")] = false ∧ lexText "ab\n".toList = some [⟨.symbol, ['a', 'b']⟩]) ∧
+    (Spacing.legal '{' [([], nm "a"), ([], op "+"), ([], op "+"), ([], nm "b")] = false ∧
+      lexText "a++b\n".toList = some [⟨.symbol, ['a']⟩, ⟨.symbol, ['+', '+']⟩, ⟨.symbol, ['b']⟩]) ∧
+    (Spacing.legal '{' [([], nm "a"), ([], op "<"), ([], neg "1")] = false ∧
+      lexText "a<-1\n".toList = some [⟨.symbol, ['a']⟩, ⟨.symbol, ['<', '-']⟩, ⟨.decimal, ['1']⟩]) ∧
+    (Spacing.legal '{' [([], nm "a"), ([], neg "1")] = false ∧
+      lexText "a-1\n".toList = some [⟨.symbol, ['a']⟩, ⟨.symbol, ['-']⟩, ⟨.decimal, ['1']⟩]) := by
+  decide +kernel
+
+/-- Written tight after an operator the signed numeral is fine: `a*-1`, `a<=-1`, `x=-2`. -/
+example : lexText "a*-1 a<=-1 x=-2\n".toList =
+    some [⟨.symbol, ['a']⟩, ⟨.symbol, ['*']⟩, ⟨.decimal, ['-', '1']⟩, ⟨.symbol, ['a']⟩, ⟨.symbol, ['<', '=']⟩, ⟨.decimal, ['-', '1']⟩,
+          ⟨.symbol, ['x']⟩, ⟨.symbol, ['=']⟩, ⟨.decimal, ['-', '2']⟩] := by decide +kernel
+
+/-! ### end to end: the text of a block, in any legal spacing, means the stratified tree -/
+
+/-- **The front end does not depend on the spacing.** The text of a non-empty block `{ xs }` written
+in any legal spacing — `items` spaces the tokens `{`, those of the source tree `xs`
+(names, numerals, operators, `[ … ]`, `( … )`, nested `{ … }`, to any depth), `}` — is lexed and
+parsed (models of lexer.go and parser.go) to the token array `blockSx xs`, which is a function of
+the source tree alone. -/
+theorem infix_text_tokens (x : Src) (xs : List Src) (hok : okL (x :: xs) = true) (items : List Spacing.Item)
+    (hitems : items.map (·.2) = Src.flat (.block (x :: xs))) (hlegal : Spacing.legal '\x00' items = true) :
+    InfixFront.blockOf (Spacing.renderItems items) = some (blockSx (x :: xs)) :=
+  blockOf_legal x xs hok items hitems hlegal
+
+/-- … so the statements the expander produces for the text are those it produces for the token list. -/
+theorem infix_text_expands (T : Table) (x : Src) (xs : List Src) (hok : okL (x :: xs) = true) (items : List Spacing.Item)
+    (hitems : items.map (·.2) = Src.flat (.block (x :: xs))) (hlegal : Spacing.legal '\x00' items = true) :
+    (InfixFront.blockOf (Spacing.renderItems items)).bind (expandBlock T) = expandBlock T (blockSx (x :: xs)) := by
+  rw [infix_text_tokens x xs hok items hitems hlegal]; rfl
+
+/-- **text_means_stratified** — END TO END, unbounded: for every non-empty block `{ xs }` (source tree of
+any size and depth), every legal spacing `items` of its tokens, when the token array is in the
+fragment: the text is lexed and parsed (models of lexer.go, parser.go) to the token array
+`blockSx xs`, and `InfixExpandArray` (model of pratt.go, regenerated table) returns the statement list
+`out` for it iff `out` is the list of statements the stratified grammar of the documented levels
+gives — whatever the spacing. -/
+theorem text_means_stratified (x : Src) (xs : List Src) (items : List Spacing.Item) (hok : okL (x :: xs) = true)
+    (hitems : items.map (·.2) = Src.flat (.block (x :: xs))) (hlegal : Spacing.legal '\x00' items = true)
+    (hfrag : inFragmentB (blockSx (x :: xs)) = true) :
+    InfixFront.blockOf (Spacing.renderItems items) = some (blockSx (x :: xs)) ∧
+    ∀ out, (∃ f, expandArray Table.generated f (staleOf (blockSx (x :: xs))) (blockSx (x :: xs)) [] = some out) ↔
+      Stmts documented (staleOf (blockSx (x :: xs))) (blockSx (x :: xs)) out :=
+  ⟨infix_text_tokens x xs hok items hitems hlegal,
+   fun out => expand_iff_statements _ (blockSx_ne_nil x xs hok) hfrag out⟩
+
+/-- … and with the fuel the driver uses: the statements `expandBlock` returns for the TEXT are those
+`parseBlock` returns for the token list, whenever both return. -/
+theorem text_expandBlock_eq_parseBlock (x : Src) (xs : List Src) (items : List Spacing.Item) (hok : okL (x :: xs) = true)
+    (hitems : items.map (·.2) = Src.flat (.block (x :: xs))) (hlegal : Spacing.legal '\x00' items = true)
+    (hfrag : inFragmentB (blockSx (x :: xs)) = true) (o1 o2 : List Sx)
+    (h1 : (InfixFront.blockOf (Spacing.renderItems items)).bind (expandBlock Table.generated) = some o1)
+    (h2 : parseBlock documented (blockSx (x :: xs)) = some o2) : o1 = o2 := by
+  rw [infix_text_expands Table.generated x xs hok items hitems hlegal] at h1
+  exact expandBlock_eq_parseBlock _ (blockSx_ne_nil x xs hok) hfrag o1 o2 h1 h2
+
+private def exSrc : List Src := [.tok (nm "a"), .tok (op "+"), .tok (nm "b"), .tok (op "*"), .tok (neg "1")]
+private def exItems : List Spacing.Item :=
+  [([], .punct '{'), ([], nm "a"), ([], op "+"), ([], nm "b"), ([], op "*"), ([], neg "1"), ([], .punct '}')]
+
+private theorem exSx : blockSx exSrc = [.sym "a", .sym "+", .sym "b", .sym "*", .lit "-1"] := by
+  have e : PrintData.itoa (-1) = ['-', '1'] := by decide
+  have h := atomOfTok_itoa (-1) (by decide) (by decide)
+  rw [e] at h
+  simp [blockSx, exSrc, elems, toSexp, tokSexp, expTok, nm, op, neg, Tok.text, Tok.dotted, Sexp.listSx, Sexp.toSx, Sexp.isComment, h]
+  decide
+
+/-- non-vacuity: the text `{a+b*-1}` satisfies every hypothesis of `text_means_stratified`, and both
+sides return `(+ a (* b -1))` -/
+example : okL exSrc = true ∧ exItems.map (·.2) = Src.flat (.block exSrc) ∧ Spacing.legal '\x00' exItems = true ∧
+    String.ofList (Spacing.renderItems exItems) = "{a+b*-1}" ∧
+    inFragmentB (blockSx exSrc) = true ∧ agree (blockSx exSrc) = true ∧
+    sameRes (expandBlock Table.generated (blockSx exSrc))
+      (some [.list [.sym "+", .sym "a", .list [.sym "*", .sym "b", .lit "-1"]]]) = true := by
+  rw [exSx]; decide +kernel
+
+end LexSpacing
 
 end ZygoVerif.Pratt
